@@ -46,7 +46,7 @@ def gen_case(ctx, rng, i, tag='random'):
                 ops.append(['restart'])
                 ops.append(['run', inputs()])
         elif r < 0.45:
-            ops.append(['restart'])
+            ops.append(['restart', rng.choice([None, None, False])])
         elif r < 0.55:
             ops.append(['kill', rng.randrange(0, 3)])
         elif r < 0.63:
@@ -136,6 +136,13 @@ class Run(PoolRun):
             if a[1] is not False and not (w in self.stuck and c['force'] is False):
                 self.viol('no-worker-outlives-pool', f'is_alive-after-{end}={a[1]}', repr(w))
 
+        # (b) the same over the whole process table: children the pool has lost track of (e.g. replaced by a restart) count too
+        if not (self.stuck and c['force'] is False):
+            s.sleep(0.5)
+            left = [p.name for p in s.procs.values() if p.alive and p is not s.root_proc and getattr(p, 'tag', None) != 'server']
+            if left and not any(v['clause'] == 'no-worker-outlives-pool' for v in self.V):
+                self.viol('no-worker-outlives-pool', f'process-left-after-{end}:not-among-the-pool-workers:force={c["force"]}', left)
+
     def _with_block(self, pool, host, end, fail_reg):
         with pool:
             self.do_ops(pool, host, fail_reg)
@@ -207,7 +214,7 @@ class Run(PoolRun):
                     self.viol('failed-construction', f'child-left-behind-after-failed-construction:{op[1]}', [p.name for p in leaked])
                 if len(list(pool.workers)) != nw:
                     self.viol('failed-construction', f'failed-worker-registered-in-pool:{op[1]}')
-            elif name in ('run', 'run-poison', 'restart') and self.stuck:
+            elif name in ('run', 'run-poison') and self.stuck:
                 continue      # a stuck worker never answers: the premise of run() is not met
             elif name == 'run-poison':
                 inputs = op[1]
@@ -270,7 +277,16 @@ class Run(PoolRun):
                             if list(w.id) == e['wid'] and not self.restarted_since(w):
                                 self.viol('dead-workers-idle', 'input-handed-to-dead-worker', e)
             elif name == 'restart':
-                r = lib.call_with_deadline(pool.restart_workers, 1800.0, timeout=1)
+                rkw = {'force': False} if (len(op) > 1 and op[1] is False) else {}
+                if self.stuck and any(w.is_thread for w in self.stuck):
+                    continue      # a stuck thread cannot be stopped at all (excluded, see ASSUMPTIONS)
+                old_children = [(w, s.procs.get(w.pid)) for w in pool.workers if not w.is_thread]
+                r = lib.call_with_deadline(pool.restart_workers, 1800.0, timeout=1, **rkw)
+                if r[0] == 'ok':
+                    # a restart that reports success has stopped every old child
+                    left = [p.name for w, p in old_children if p is not None and p is not s.root_proc and p.alive and not p.run_done]
+                    if left:
+                        self.viol('restart-workers', f'old-child-alive-after-restart_workers:{"stuck" if self.stuck else "normal"}:force={rkw.get("force")}', left)
                 if r[0] == 'hung':
                     self.viol('restart-workers', 'restart_workers-hangs', s.blocked_report()[:6])
                     return
